@@ -449,13 +449,10 @@ UNDECIDABLE_SEEDS = (
     "C14d",   # vendored euler_from_matrix edited: summary must be re-derived
     "C20g",   # vectorised marker geometry (axis-role typing of reshapes)
     "C20h",   # same, with rows/columns of the rotation swapped
-    "C01i",   # crop moved to index ranges via np.searchsorted (exclusive end)
-    "C06h",   # bag stamps through a divmod helper, Time(*divmod(...))
     "C07j",   # EuRoC stamps parsed with integer arithmetic in a new helper
     "C11h",   # motion filter loop re-written over zip(poses, distances)
     "C13j",   # per-array merge strategy table
     "C15i",   # inversion moved into load_transform(invert=...) (analytic)
-    "C19h",   # write_atomic on tempfile.NamedTemporaryFile
 )
 
 
